@@ -33,6 +33,17 @@
 // {halt, abort, throw, caught throw; entry script or deployed contract}, as a
 // test invocation and in real blocks on all three backends, each against a
 // twin without the write: in-place writes must never reach the ledger.
+//
+// Layer E (escape_test.go, escape_world_test.go, x.go.txt; family single-hf-all =
+// every hardfork from genesis): a callee's rollback layer exists only if its
+// effective call flags contain WriteStates or AllowNotify, so every operation the
+// interop table and the natives allow (derived by trying) x 16 flag sets x 10 ways
+// the flags reach the callee (Contract.Call flags, manifest-safe method, CALLT
+// token flags, entry script, restricted middle contract, ...) is run by a callee
+// that then fails and is caught, as a test invocation and in real blocks, against
+// the twin whose callee does nothing before failing. hf_test.go repeats the
+// hand-assembled and three-level families of layer A on that family, where
+// instance C's storage ops are System.Storage.Local.* calls.
 package c04
 
 import (
@@ -70,18 +81,21 @@ type checker struct {
 	states                            *vk.Set
 	// hand-assembled scripts: what the handlers did (model), over all executions
 	hProgs, hCatches, hFinallies, hFinalliesPending, hSwallowed, hHaltUndone, hHalt, hFault vk.Counter
-	leakChecks vk.Counter // chunks of test invocations after which the node's committed state was compared with the prepared one
-	twins      vk.Counter // block-mode programs compared with their bare-THROW twin
-	twinStates *vk.Set    // distinct state roots reached by them
-	dcov       map[string]any
-	famStats   []*famStat
+	leakChecks                                                                              vk.Counter // chunks of test invocations after which the node's committed state was compared with the prepared one
+	twins                                                                                   vk.Counter // block-mode programs compared with their bare-THROW twin
+	twinStates                                                                              *vk.Set    // distinct state roots reached by them
+	dcov                                                                                    map[string]any
+	ecov                                                                                    map[string]any
+	hfcov                                                                                   map[string]any
+	fam                                                                                     string // "" = family single; familyHF for the checker of hf_test.go
+	famStats                                                                                []*famStat
 }
 
 // famStat: what the model said about the programs of one family (test invocations).
 type famStat struct {
-	Name                                                       string
+	Name                                                  string
 	progs, haltUndone, haltRestoredNoop, haltPlain, fault vk.Counter
-	states, logs                                               *vk.Set
+	states, logs                                          *vk.Set
 }
 
 func (fs *famStat) add(m *Result) {
@@ -308,7 +322,7 @@ func (c *checker) reportTest(rg *rig, prog string, what, detail []string) {
 	if len(w2) == 0 {
 		min, w2, d2 = prog, what, detail
 	}
-	c.r.Violation(vkey("A-test", w2[0], min), caseRec{Layer: "A", Mode: "test", Prog: min, Orig: prog, What: w2, Detail: d2})
+	c.r.Violation(vkey(c.mode("A-test"), w2[0], min), caseRec{Layer: "A", Mode: "test", Prog: min, Orig: prog, What: w2, Detail: d2, Family: c.fam})
 }
 
 func (c *checker) reportBlock(progs []string, idx int, what, detail []string) {
@@ -317,7 +331,7 @@ func (c *checker) reportBlock(progs []string, idx int, what, detail []string) {
 		return
 	}
 	prog := progs[idx]
-	rec := caseRec{Layer: "A", Mode: "block", Prog: prog, Orig: prog, History: progs[:idx], What: what, Detail: detail}
+	rec := caseRec{Layer: "A", Mode: "block", Prog: prog, Orig: prog, History: progs[:idx], What: what, Detail: detail, Family: c.fam}
 	// does it fail on its own (without the history)?
 	alone := func(p string) bool {
 		i, w2, _, err := c.evalBlocks([]string{p}, nil)
@@ -329,7 +343,15 @@ func (c *checker) reportBlock(progs []string, idx int, what, detail []string) {
 			rec.Prog, rec.History, rec.What, rec.Detail = min, nil, w2, d2
 		}
 	}
-	c.r.Violation(vkey("A-block", rec.What[0], rec.Prog), rec)
+	c.r.Violation(vkey(c.mode("A-block"), rec.What[0], rec.Prog), rec)
+}
+
+// mode: the key prefix of a family other than single names the family.
+func (c *checker) mode(m string) string {
+	if c.fam != "" {
+		return m + "@" + c.fam
+	}
+	return m
 }
 
 // vkey: a triaged class comes first so that one known-finding pattern covers both modes.
@@ -373,9 +395,25 @@ func TestCheck(t *testing.T) {
 	sps := spaces(r.Thorough())
 	seen, seenBlk := map[string]bool{}, map[string]bool{}
 	var all, blk []string
+	var hfTest, hfBlk []string // the spaces repeated on the family single-hf-all (hf_test.go)
+	hfSeen, hfSeenBlk := map[string]bool{}, map[string]bool{}
+	hfAdd := func(name string, ps []string) {
+		t, b := hfPick(name, r.Thorough())
+		for _, p := range ps {
+			if t && !hfSeen[p] {
+				hfSeen[p] = true
+				hfTest = append(hfTest, p)
+			}
+			if b && !hfSeenBlk[p] {
+				hfSeenBlk[p] = true
+				hfBlk = append(hfBlk, p)
+			}
+		}
+	}
 	spaceInfo := []map[string]any{}
 	for _, sp := range sps {
 		ps := sp.programs()
+		hfAdd(sp.Name, ps)
 		fresh := 0
 		for _, p := range ps {
 			if !seen[p] {
@@ -405,6 +443,7 @@ func TestCheck(t *testing.T) {
 	hInfo := []map[string]any{}
 	for _, hs := range hspaces(r.Thorough(), c.s0) {
 		fresh := 0
+		hfAdd(hs.Name, hs.Progs)
 		fs := newFam(hs.Name)
 		for _, p := range hs.Progs {
 			if !seen[p] {
@@ -426,6 +465,7 @@ func TestCheck(t *testing.T) {
 	var solo []string
 	for _, fm := range families(c.s0) {
 		fresh := 0
+		hfAdd(fm.Name, fm.Progs)
 		fs := newFam(fm.Name)
 		for _, p := range fm.Progs {
 			if !seen[p] {
@@ -447,7 +487,7 @@ func TestCheck(t *testing.T) {
 		hInfo = append(hInfo, fm.Info)
 		fmt.Printf("space %s: %d programs (%d new)\n", fm.Name, len(fm.Progs), fresh)
 	}
-	seen, seenBlk = nil, nil
+	seen, seenBlk, hfSeen, hfSeenBlk = nil, nil, nil, nil
 	sortProgs(all)
 	sortProgs(blk)
 
@@ -540,6 +580,19 @@ func TestCheck(t *testing.T) {
 	c.dcov = dcov
 	cexecs += dexecs
 
+	// ---- layer E: state changes escaping a rollback layer that is conditional on call flags (escape_test.go),
+	// on the family single-hf-all; the older families once more on that family (hf_test.go) ----
+	ecov := map[string]any{}
+	if hw, err := buildWorldHF(false, 0, true); err != nil {
+		c.harness(fmt.Errorf("family %s: %w", familyHF, err))
+	} else {
+		var eexecs, hexecs int
+		ecov, eexecs = c.runEscape(hw)
+		c.hfcov, hexecs = c.runHF(hw, hfTest, hfBlk)
+		cexecs += eexecs + hexecs
+	}
+	c.ecov = ecov
+
 	// ---- layer A, multi-transaction blocks (one VM is reused within a block) ----
 	nMulti := c.runMulti()
 	fmt.Printf("layer A multi-transaction blocks: %d blocks, %.1fs\n", nMulti, r.Elapsed())
@@ -631,14 +684,23 @@ func (c *checker) finish(r *vk.Run, all, blk []string, nsolo int, spaceInfo, hIn
 			"halt_with_callee_changes_undone": c.hHaltUndone.Get(), "halt_other": c.hHalt.Get(), "fault": c.hFault.Get()},
 		"layerA_test_outcomes": map[string]int64{"halt_callee_changes_undone": undone.Get(), "halt_callee_failed_nothing_to_undo": restoredNoop.Get(),
 			"halt_no_failure": plain.Get(), "fault": faulted.Get()},
-		"layerA_block_outcomes":           map[string]int64{"halt_callee_changes_undone": bUndone.Get(), "fault": bFault.Get(), "halt_other": bHalt.Get()},
+		"layerA_block_outcomes":              map[string]int64{"halt_callee_changes_undone": bUndone.Get(), "fault": bFault.Get(), "halt_other": bHalt.Get()},
 		"layerA_new_families":                famCov,
 		"layerA_test_invocation_leak_checks": c.leakChecks.Get(),
 		"layerA_block_twin_differential": map[string]any{"programs_with_caught_failures_compared_with_bare_throw_twin": c.twins.Get(), "distinct_state_roots": c.twinStates.Len(),
 			"compared": "state root (storage of all contracts and natives) after the block; identical signers, fees, nonce"},
-		"layerB":                          bstat.cov,
-		"layerC_native_setter_then_fault": ccov,
-		"layerD_ledger_data_written_in_place": c.dcov,
+		"layerB":                                        bstat.cov,
+		"layerC_native_setter_then_fault":               ccov,
+		"layerD_ledger_data_written_in_place":           c.dcov,
+		"layerE_escape_from_conditional_rollback_layer": c.ecov,
+		"layerE_operations":                             c.ecov["operations"],
+		"layerE_cases":                                  c.ecov["cases"],
+		"layerE_distinct_outcome_classes":               c.ecov["distinct_outcome_classes"],
+		"layerE_blocks":                                 c.ecov["blocks"],
+		"layerA_hf_all_programs_test_invocations":       c.hfcov["programs_test_invocations"],
+		"layerA_hf_all_programs_in_real_blocks":         c.hfcov["programs_in_real_blocks"],
+		"layerA_hf_all_distinct_final_states":           c.hfcov["distinct_final_states"],
+		"layerA_on_family_single_hf_all":                c.hfcov,
 		"rule": "states = distinct final model states; transitions = contract calls (entry, RUN, native, payment callback) executed by the model; " +
 			"every program is executed on the real code and compared in VM state, op log, notifications, storage of all instances, GAS/NEO balances, Policy fee",
 	}
@@ -653,6 +715,9 @@ func (c *checker) finish(r *vk.Run, all, blk []string, nsolo int, spaceInfo, hIn
 		"twin differential: a program and its twin (failed callees replaced by bare THROWs, same signers/fees/nonce) must reach the same state root; identical transactions on the two replicas must do so too",
 		"layer D: a Buffer or compound item the VM made from data the ledger handed out (CONVERT, RIGHT, LEFT, SUBSTR, CAT, NEWBUFFER+MEMCPY; items returned by interops and natives) is private to the execution: writing it in place is not a storage change, so the case and its twin (same script length, fees, signers, nonce; mutation left out) must be indistinguishable for the ledger - after a fault, a caught throw and a HALT alike (only Storage.Put writes)",
 		"layer D, taken from the VM: a mutation the VM itself refuses (read-only notification state, wrong item type, empty array) faults like ABORT; its twin aborts at the same place",
+		"layer E (family single-hf-all: every hardfork from genesis; instance C = x.go.txt with System.Storage.Local.* as its storage ops): a callee that runs an operation and then fails, caught by a caller, must leave exactly what its twin leaves in which the callee does nothing before failing (ABORTs where the operation itself is refused) - for each of the 16 call flag sets and every way the flags reach the callee; which operations are allowed under which flag set is derived by trying and reported (`allowed`/`changes-state` masks), it is not part of the oracle",
+		"layer E, left out: a script started by System.Runtime.LoadScript that throws and is caught by the contract that loaded it gets no rollback layer at all (its flags are masked to ReadOnly, so on this tree it cannot change state); whether the property's 'called contract' includes such a script is not stated, so the completed-callee control runs of the loadscript operations are counted but not judged",
+		"layer A on single-hf-all: same reference interpreter; the only modelled difference is none (Local.Put/Delete/Get/Find of instance C are modelled as Put/Delete/Get/Find on its own storage, which is what the interop documentation promises)",
 		"layer D does not compare values that contain transaction or block hashes across the two replicas (the scripts differ in one operand, so the hashes do); those sources are checked within one execution (second read equals the snapshot taken before the mutation) and through the ledger state",
 	})
 }
